@@ -68,7 +68,7 @@ func main() {
 	timeoutMs := flag.Int("timeout-ms", 10000, "per-query solver timeout")
 	samples := flag.Int("samples", 50, "number of path samples (witness inputs) to emit")
 	seed := flag.Int64("seed", 0, "")
-	solver := flag.String("solver", "z3", "z3 | z3-new | cvc5")
+	solver := flag.String("solver", "z3-new", "z3 | z3-new | cvc5")
 	maxViol := flag.Int("max-violations", 5, "violations kept per distinct message")
 	deadline := flag.Duration("deadline", 0, "wall-clock limit for exploration")
 	out := flag.String("out", "", "result JSON file")
